@@ -19,6 +19,7 @@ Section More.
   Notation put_obj := (put_obj fmt encS c).
   Notation finish_stream := (finish_stream fmt_sd encS encB fenc c).
   Notation flush_after := (flush_after fmt fmt_sd encS encB fenc c).
+  Notation flush_objs := (flush_objs fmt encS c).
   Notation close_stream := (close_stream fmt fmt_sd encS encB fenc c).
   Notation start_stream := (start_stream c).
 
@@ -98,22 +99,59 @@ Section More.
         split; [|auto]. match goal with |- _ < _ + N.of_nat (length ?ch) => pose proof (Hlen (s_num s0) (s_gen s0) _ _ _ : 0 < N.of_nat (length ch)) end. lia.
   Qed.
 
+  Lemma ext_pos_le st st' : ext st st' -> pos st <= pos st'.
+  Proof. intros [bs [_ P]]. rewrite P. lia. Qed.
+
+  Definition xgrows (st st' : state) : Prop :=
+    forall m e, xlookup m (xref st) = Some e -> xlookup m (xref st') = Some e.
+
+  Lemma flush_objs_xgrows l : forall st st', flush_objs l st = Ok st' -> xgrows st st'.
+  Proof.
+    induction l as [|[[n g] o] l IH]; intros st st' H; cbn in H.
+    - injection H as <-. intros m e He. exact He.
+    - destruct o; [|discriminate]. binv H.
+      destruct (put_obj_xref _ _ _ _ _ Hb) as [Hx [Ex _]].
+      intros m e He. apply (IH _ _ Hk). rewrite Ex, xlookup_app, He. reflexivity.
+  Qed.
+
+  Lemma put_stream_now_xgrows n g d data st st' :
+    put_stream_now n g d data st = Ok st' -> xgrows st st'.
+  Proof.
+    unfold put_stream_now, open_stream. destruct (strm st); [discriminate|]. intros H. binv H. binv Hb.
+    unfold set_xref in Hb0. destruct (xlookup n (xref st)) eqn:E; [discriminate|]. injection Hb0 as <-.
+    assert (X : xref a = xref st ++ [(n, EUse (pos st) g)]).
+    { destruct (dict_get k_Length d) as [[]|]; try discriminate; injection Hk0 as <-; reflexivity. }
+    destruct (strm a); [|discriminate]. injection Hk as <-. unfold xgrows. cbn.
+    intros m e He. rewrite X, xlookup_app, He. reflexivity.
+  Qed.
+
   Lemma flush_after_offsets l : forall st st',
     flush_after l st = Ok st' ->
-    (forall m e, xlookup m (xref st) = Some e -> xlookup m (xref st') = Some e) /\
+    xgrows st st' /\
     (forall n g o, In (n, g, PObj o) l ->
        exists off, xlookup n (xref st') = Some (EUse off g) /\ pos st <= off).
   Proof.
     induction l as [|[[n0 g0] o0] l IH]; intros st st' H; cbn in H.
-    - injection H as <-. cbn. split; [auto | intros n g o []].
-    - destruct o0 as [o0|d data]; [|binv H; binv Hk; discriminate].
-      binv H. destruct (put_obj_xref _ _ _ _ _ Hb) as [Hx [Ex [Hp _]]].
-      destruct (IH _ _ Hk) as [G R]. split.
-      + intros m e He. apply G. rewrite Ex, xlookup_app, He. reflexivity.
-      + intros n g o [Heq|Hin].
-        * injection Heq as -> -> ->. exists (pos st). split; [|lia].
-          apply G. rewrite Ex, xlookup_app, Hx. cbn. rewrite N.eqb_refl. reflexivity.
-        * destruct (R _ _ _ Hin) as [off [A B]]. exists off. split; [exact A | lia].
+    - injection H as <-. split; [intros m e He; exact He | intros n g o []].
+    - destruct o0 as [o0|d data big].
+      + binv H. destruct (put_obj_xref _ _ _ _ _ Hb) as [Hx [Ex [Hp _]]].
+        destruct (IH _ _ Hk) as [G R]. split.
+        * intros m e He. apply G. rewrite Ex, xlookup_app, He. reflexivity.
+        * intros n g o [Heq|Hin].
+          -- injection Heq as -> -> ->. exists (pos st). split; [|lia].
+             apply G. rewrite Ex, xlookup_app, Hx. cbn. rewrite N.eqb_refl. reflexivity.
+          -- destruct (R _ _ _ Hin) as [off [A B]]. exists off. split; [exact A | lia].
+      + binv H. binv Hk. binv Hk0.
+        destruct (IH _ _ Hk) as [G R].
+        pose proof (put_stream_now_xgrows _ _ _ _ _ _ Hb) as G1.
+        destruct (finish_stream_pos _ _ _ Hb0) as [P2 [_ X2]].
+        pose proof (flush_objs_xgrows _ _ _ Hb1) as G3.
+        pose proof (ext_pos_le _ _ (put_stream_now_ext _ _ _ _ _ _ Hb)) as P1.
+        pose proof (ext_pos_le _ _ (flush_objs_ext fmt encS c _ _ _ Hb1)) as P3.
+        split.
+        * intros m e He. apply G, G3. rewrite X2. apply G1. exact He.
+        * intros n g o [Heq|Hin]; [discriminate|].
+          destruct (R _ _ _ Hin) as [off [A B]]. exists off. split; [exact A | lia].
   Qed.
 
   (* objects Put while a stream was open are written after that stream *)
@@ -125,6 +163,6 @@ Section More.
     intros Hs H n g o Hin. unfold Writer.close_stream in H. binv H.
     destruct (finish_stream_pos _ _ _ Hb) as [P [A X]].
     destruct (flush_after_offsets _ _ _ Hk) as [_ R].
-    destruct (R n g o (A _ Hin)) as [off [B C]]. exists off. split; [exact B | lia].
+    destruct (R n g o (A _ Hin)) as [off [B C]]. exists off. split; [exact B | cbn in C; lia].
   Qed.
 End More.
